@@ -33,6 +33,7 @@ def valJson : Val → Json
       | n :: ns, v :: vs => (n, Json.str v) :: go ns vs
     .mkObj (go ns vs)
   | .crash w => .str ("<crash:" ++ w ++ ">")
+  | .emptyList t => if t == "[]" then .arr #[] else .mkObj []
 
 /-- `DataRow.WriteJSONColumn` -/
 def cellJson (cx : Ctx) (t : Table) (r : Row) (c : Column) : Json :=
